@@ -118,6 +118,12 @@ def run(ctx):
     # ---- R4 ----------------------------------------------------------------------
     _producers(ctx)
 
+    # ---- R8 ----------------------------------------------------------------------
+    union_members(ctx, 'C02.R8')
+
+    # ---- R9 ----------------------------------------------------------------------
+    subclass_child(ctx, 'C02.R9')
+
 
 def _random_static(ctx):
     """make_func_signature / _get_func_scope_arg_random_int: conditional on the same key."""
@@ -260,3 +266,104 @@ def _fingerprint(ctx, m, node, guard: str) -> str:
             out.append(x)
     neg = guard.count('not ')
     return ','.join(sorted(out)) + f'|neg={neg}'
+
+
+def union_members(ctx, RULE):
+    """The union production, interpreted on crafted unions: every member gets its own check — a member that is a class
+    *and* a PEP hint (a user generic) is checked deeply; members that sanify to one hint with different type-variable
+    tables stay different members.  Shared by C01 (a collapsed member is rejected although it conforms) and C02 (a
+    shallowly checked generic accepts what violates its bases)."""
+    from sa.gen import AConf
+    G, V, cat, GC = _gen.engines(ctx)
+    C = G.cls
+    UNION = 'beartype/_check/code/_pep/pep484/codepep484604union.py:0'
+    ctx.rule(RULE, 'union members, decided by interpreting the union production on crafted unions: (a) a user generic — a '
+             'class that is also a PEP hint with bases to check — is enqueued for a deep check, not folded into the '
+             'shallow isinstance tuple; (b) two parametrisations of one generic, which sanify to the same hint with '
+             'different type-variable tables, are two members with two checks; (c) plain classes go into one '
+             'isinstance test, and a union of a plain class and a container checks the container deeply')
+
+    def run(h):
+        r = G.run(h, AConf(is_random=True))
+        ctx.require(r.raised is None and r.code is not None, f'cannot generate code for the crafted union {h.shape()}: {r.raised}')
+        # (the root hint itself is enqueued first: not a member)
+        keep = [i for i, (_, c) in enumerate(r.children) if c is not h]
+        r.children = [r.children[i] for i in keep]
+        r.children_sane = [r.children_sane[i] for i in keep if i < len(r.children_sane)]
+        return r
+    # (a)
+    gen = G.generic(G.subscripted('HintSignList', C('I')))
+    gen.is_type = True
+    r = run(G.union(gen, C('X')))
+    ctx.ob(RULE, 'union:generic-class-member-checked-deeply', UNION,
+           'a member that is both a class and a PEP hint is enqueued as a child hint', any(h is gen for _, h in r.children),
+           f'children enqueued: {[getattr(h, "label", h) for _, h in r.children]}; code {r.code[:160]!r}')
+    # (b)
+    g0 = G.subscripted('HintSignList', C('I'))
+    m1 = G.subscripted('HintSignPep484585GenericSubbed', C('A1'), reduces_to=(g0, {'T': 'int'}))
+    m2 = G.subscripted('HintSignPep484585GenericSubbed', C('A2'), reduces_to=(g0, {'T': 'str'}))
+    r = run(G.union(m1, m2))
+    tables = [tuple(sorted(getattr(s, 'typearg_to_hint', {}).items())) for s in r.children_sane if getattr(s, 'hint', None) is g0]
+    ctx.ob(RULE, 'union:parametrisations-stay-distinct', UNION,
+           'members that sanify to one hint under different type-variable tables are each enqueued with their own table',
+           sorted(tables) == [(('T', 'int'),), (('T', 'str'),)], f'tables of the enqueued members: {tables}')
+    # (c)
+    r = run(G.union(C('X'), C('Y')))
+    ctx.ob(RULE, 'union:plain-classes-shallow', UNION, 'plain classes need no child check', not r.children,
+           f'children enqueued: {[getattr(h, "label", h) for _, h in r.children]}')
+    lst = G.subscripted('HintSignList', C('I'))
+    r = run(G.union(C('X'), lst))
+    ctx.ob(RULE, 'union:container-member-checked-deeply', UNION, 'a container member of a union is enqueued as a child hint',
+           [h for _, h in r.children if h is lst] != [], f'children enqueued: {[getattr(h, "label", h) for _, h in r.children]}')
+
+
+def subclass_child(ctx, RULE):
+    """type[T]: which class the generated issubclass() test uses — the real getter, interpreted."""
+    from sa.fold import AObj, FuncVal, Sym, _Abort, _Raise, _call_function
+    from sa.gen import ASane
+    G, V, cat, GC = _gen.engines(ctx)
+    F = G.f
+    Q = 'beartype._check.pep.pep484585.checkpep484585subclass'
+    mm = ctx.repo.mod(Q)
+    saved = dict(F.stubs)
+    F.stubs.pop(f'{Q}.get_hint_pep484585_subclass_hint_child_sanified', None)     # interpret the real one here
+    fn = F.const(Q, 'get_hint_pep484585_subclass_hint_child_sanified')
+    ctx.require(isinstance(fn, FuncVal), 'anchor vanished: get_hint_pep484585_subclass_hint_child_sanified')
+    ctx.rule(RULE, 'type[T] tests issubclass against T itself, decided by interpreting the child getter of the subclass '
+             'production over T ∈ {a plain class, a metaclass, the builtin `type`, `object`, an ignorable hint, a union '
+             'of classes}: only an ignorable T widens the test to `object`; `type[type]` keeps `type` (not every class is '
+             'a subclass of `type`)')
+
+    class _Tree(AObj):
+        def __init__(self, hint):
+            self.hint_curr = AObj()
+            self.hint_curr.hint_sane = ASane(hint)
+            self.exception_prefix = ''
+
+        def sanify_hint_child(self, h, *a, **k):
+            return G.IGNORABLE if getattr(h, 'ignorable', False) else ASane(h)
+    saved_i = F.isinstance_hook
+    F.isinstance_hook = lambda o, c: True if isinstance(o, _Tree) else (saved_i(o, c) if saved_i else None)
+    F.stubs['beartype._util.cls.pep.clspep3119.is_object_issubclassable'] = lambda e, a, k: True
+    F.stubs['beartype._util.cls.pep.clspep3119.die_unless_object_issubclassable'] = lambda e, a, k: None
+    try:
+        X, Y = G.cls('X'), G.cls('Y')
+        cases = {'a plain class': (X, X), 'a metaclass': (G.cls('Meta'), None), 'the builtin type': (G.builtin_cls('type'), None),
+                 'the builtin object': (G.builtin_cls('object'), None), 'an ignorable hint': (G.ignorable(), Sym('builtin', 'object')),
+                 'a union of classes': (G.union(X, Y), (X, Y))}
+        for name, (child, want) in cases.items():
+            h = G.subscripted('HintSignType', child, superclass=child)
+            try:
+                out = _call_function(F, fn, [_Tree(h)], {}, 1)
+            except (_Abort, _Raise) as ex:
+                ctx.require(False, f'cannot interpret {fn.qual} for type[{name}]: {ex}')
+            want = child if want is None else want
+            ok = out is want or out == want or (isinstance(out, tuple) and isinstance(want, tuple) and len(out) == len(want)
+                                                and all(a is b for a, b in zip(out, want)))
+            ctx.ob(RULE, f'type[T]:superclass:{name}', mm.where(fn.node),
+                   f'for T = {name} the subclass test uses ' + ('`object`' if name == 'an ignorable hint' else 'T itself'),
+                   ok, f'evaluates to {out!r}, expected {want!r}')
+    finally:
+        F.isinstance_hook = saved_i
+        F.stubs.clear()
+        F.stubs.update(saved)
